@@ -82,8 +82,32 @@ SameTypeReader(stmts) ==
   \E b \in AllBins(stmts) : \/ (b.l.k = "read" /\ b.r.k = "ref" /\ MemType(stmts, b.l.m) # "" /\ InType(stmts, b.r.n) = MemType(stmts, b.l.m))
                              \/ (b.r.k = "read" /\ b.l.k = "ref" /\ MemType(stmts, b.r.m) # "" /\ InType(stmts, b.l.n) = MemType(stmts, b.r.m))
 
+(* KF-C04-decider-chain: an UNCONDITIONAL write whose value ends in a conditional value / comparison keeps the two-gate   *)
+(* cell, but no write-enable (signal-W = 1) source is emitted or the decider output is summed onto the feedback network:    *)
+(* the cell is never written (stays 0) or doubles every tick.                                                               *)
+PlainWrites(stmts) == {i \in DOMAIN stmts : stmts[i].k = "write" /\ stmts[i].mode = "plain"}
+IsCmp(e) == e.k = "bin" /\ e.op \in {"==", "!=", "<", "<=", ">", ">="}
+DeciderLast(e) == e.k = "cond" \/ IsCmp(e) \/ (e.k = "bin" /\ e.op = "+" /\ e.l.k = "cond")
+DeciderChain(stmts) == \E i \in PlainWrites(stmts) : DeciderLast(stmts[i].e)
+(* KF-C04-feedback-foreign: m.write(m.read() + a + a) / m.write(m.read() + (a | "t")): the loop is folded into arithmetic  *)
+(* feedback and the second external source is wired onto the feedback network: the cell computes 2*m + ... per tick.       *)
+FeedbackForeign(stmts) == \E i \in PlainWrites(stmts) : LET e == stmts[i].e IN
+   e.k = "bin" /\ e.op = "+" /\ (e.r.k = "proj" \/ (e.l.k = "bin" /\ e.l.op = "+" /\ e.r.k = "ref" /\ e.l.r = e.r))
+
+(* KF-C06-enable-dropped: entity.enable on a pump or power switch is accepted and silently ignored (no circuit condition). *)
+EnableDropped(stmts) == \E i, j \in DOMAIN stmts : stmts[i].k = "place" /\ stmts[i].proto \in {"pump", "power-switch"}
+                            /\ stmts[j].k = "prop" /\ stmts[j].p = "enable" /\ stmts[j].ent = stmts[i].n
+(* KF-C06-negated-shared-condition: Signal c = a > 3; e.enable = c; f.enable = !c;  the comparison is inlined into e and   *)
+(* its combinator removed; f gets the condition "signal = 0" on a signal nothing is wired to deliver: f is always enabled.   *)
+NegatedShared(stmts) == \E j \in DOMAIN stmts : stmts[j].k = "prop" /\ stmts[j].p = "enable" /\ stmts[j].e.k = "un" /\ stmts[j].e.op = "!"
+                            /\ stmts[j].e.e.k = "ref" /\ \E i \in Lets(stmts) : stmts[i].n = stmts[j].e.e.n /\ IsCmp(stmts[i].e)
+
 KnownFinding(stmts, clause) ==
-  IF clause \in {"C03_value", "C01_settles"} /\ SameTypeReader(stmts) THEN "KF-C03-sametype-reader"
+  IF clause = "C06_condition" /\ EnableDropped(stmts) THEN "KF-C06-enable-dropped"
+  ELSE IF clause = "C06_enable" /\ NegatedShared(stmts) THEN "KF-C06-negated-shared-condition"
+  ELSE IF clause \in {"C04_iterates", "C04_reader"} /\ DeciderChain(stmts) THEN "KF-C04-decider-chain"
+  ELSE IF clause \in {"C04_iterates", "C04_reader"} /\ FeedbackForeign(stmts) THEN "KF-C04-feedback-foreign"
+  ELSE IF clause \in {"C03_value", "C01_settles"} /\ SameTypeReader(stmts) THEN "KF-C03-sametype-reader"
   ELSE IF clause \in {"C02_bag", "C01_value"} /\ BundleCmpSignal(stmts) THEN "KF-C02-scalar-operand-visible"
   ELSE IF clause = "C02_bag" /\ NestedLiteral(stmts) THEN "KF-C02-nested-literal"
   ELSE KnownFinding1(stmts, clause)
